@@ -356,3 +356,8 @@ CHECKS['C11']['text'] += (
     " Preempt2r.v (1 020 lines): the reroute option, function level - preempt_reroute_spec / preempt_reroute_record / preempt_reroute_dest / preempt_reroute_to_other_node: one interruption record WITH the destination the rerouting router allows, the victim "
     "leaves its node (no service record, no unblocking) and is handed to the destination's accept or the exit, the pre-emptor starts on the victim's server with the service time its marker prescribes, nobody else at the node changes; "
     "reroute_same_node_refuted is a closed witness of the open finding F-11a (the destination is the node itself).")
+CHECKS['C12']['text'] += (
+    " Slot2.v (2 500 lines), the second half of the property on the STAGE-2 engine model: run_many_slotinv / run_many_slotnext / slots_follow_timetable (every configuration: a slotted node at position k has its next slot at slotdate k, never overdue, a slot event "
+    "runs exactly at its date and moves the position by one, no other event does); slot_event_starts / uncapacitated_slot / capacitated_after_slot (at most the slot size starts per slot; capacitated: at most max(size - in service, 0) starts, and at most the size in service "
+    "right after a pre-emptive capacitated slot when the counter does not over-count); starts_only_in_slot / run_between_slots (between its slot events nobody starts or restarts service at a slotted node; scope: no reroute option, no pre-emptive Schedule / slot at OTHER nodes); "
+    "capacity_after_nonpreemptive_slot_refuted (a NON-pre-emptive capacitated slot of size 1 after one of size 2 leaves two in service: by design).")
